@@ -159,9 +159,28 @@ Definition field_sets_result (d : device) : string :=
 
 (* ---- reference interpreter queries for the L2 correspondence (compiled output vs model) ---- *)
 
+(* ---- the constant part of every emitted field set (generate_field_set): `bits: [u8; N]`, `From<[u8; N]>` /
+   `From<FieldSet> for [u8; N]` move the array in and out, and BitAnd / BitOr / BitXor / Not (and the *Assign forms)
+   loop over the N bytes ---- *)
+Definition fs_from_bytes (bs : list Z) : list Z := bs.
+Definition fs_to_bytes (fs : list Z) : list Z := fs.
+
+Fixpoint zip_with (f : Z -> Z -> Z) (a b : list Z) : list Z :=
+  match a, b with
+  | x :: a', y :: b' => f x y :: zip_with f a' b'
+  | _, _ => []
+  end.
+
+Definition fs_and (a b : list Z) : list Z := zip_with Z.land a b.
+Definition fs_or (a b : list Z) : list Z := zip_with Z.lor a b.
+Definition fs_xor (a b : list Z) : list Z := zip_with Z.lxor a b.
+Definition fs_not (a : list Z) : list Z := map (fun x => 255 - x) a.      (* `!x` on a u8 *)
+
 Inductive query :=
 | QGet (fs acc : nat) (bytes : list Z)
-| QSet (fs acc : nat) (v : Z) (bytes : list Z).
+| QSet (fs acc : nat) (v : Z) (bytes : list Z)
+| QId (bytes : list Z)
+| QOps (a b : list Z).
 
 Definition show_bytes (l : list Z) : string := String.concat "," (map show_Z l).
 
@@ -193,6 +212,9 @@ Definition run_query (sets : list fs_facts) (q : query) : string :=
                   end
       end
     end
+  | QId bytes => show_bytes (fs_to_bytes (fs_from_bytes bytes))
+  | QOps a b => show_bytes (fs_and a b) ++ " " ++ show_bytes (fs_or a b) ++ " " ++ show_bytes (fs_xor a b) ++ " " ++
+                show_bytes (fs_not a)
   end.
 
 Definition l2_expected (d : device) (qs : list query) : string :=
